@@ -472,6 +472,60 @@ func genSort(c *GenCtx) {
 			"sort_by(objs, &k)[*].i | [0]", "reverse(sort_by(objs, &k))[*].i", "sort_by(plain, &@)", "group_by(objs, &to_string(k))", "sort_by(objs, &to_string(k))[*].i", "[sort_by(objs, &k), objs]"})
 		c.add("sort", e, doc)
 	}
+	// nested sorts: a sort inside the key expression of another sort (same and different key kinds, inner arrays
+	// shorter and longer than the outer one), sorts of sorts, and sorts on both sides of one expression
+	nestExprs := []string{
+		"sort_by(teams, &sort_by(members, &age)[0].age)[*].name", "sort_by(teams, &sort_by(members, &age)[-1].age)[*].name",
+		"sort_by(teams, &max_by(members, &age).age)[*].name", "sort_by(teams, &min_by(members, &nick).nick)[*].name",
+		"sort_by(teams, &sort_by(members, &nick)[0].nick)[*].name", "sort_by(teams, &sort(members[*].age)[0])[*].name",
+		"sort_by(teams, &sort_by(members, &nick)[0].age)[*].name", "sort_by(teams, &name)[*].sort_by(members, &age)[*].nick",
+		"sort_by(sort_by(teams, &name), &length(members))[*].name", "[sort_by(teams, &name)[*].name, sort_by(teams, &length(members))[*].name]",
+		"max_by(teams, &sort_by(members, &age)[0].age).name", "sort_by(teams, &sum(sort(members[*].age)))[*].name",
+		"map(&sort_by(members, &age)[0].nick, sort_by(teams, &name))", "sort_by(teams, &to_string(sort_by(members, &age)[*].age))[*].name"}
+	for k := 0; k < n/3+20; k++ {
+		nt := 2 + r.Intn(5)
+		var teams []string
+		for t := 0; t < nt; t++ {
+			nm := 1 + r.Intn(6)
+			var ms []string
+			for m := 0; m < nm; m++ {
+				ms = append(ms, fmt.Sprintf(`{"age":%d,"nick":%s}`, r.Intn(40), c.jstr(r.Pick([]string{"a", "b", "c", "é", "zz", "B", "ab"})+strconv.Itoa(r.Intn(5)))))
+			}
+			teams = append(teams, fmt.Sprintf(`{"name":%s,"members":[%s]}`, c.jstr(string(rune('a'+r.Intn(26)))+strconv.Itoa(t)), strings.Join(ms, ",")))
+		}
+		c.add("sort-nested", r.Pick(nestExprs), `{"teams":[`+strings.Join(teams, ",")+`]}`)
+	}
+}
+
+// genAlias: every array- or object-consuming operation applied to operands that may be the caller's own value (or a
+// literal stored in the compiled expression) rather than a copy, with the operand observed again afterwards in the
+// same expression; the C06 judges additionally compare the document before and after, and repeated calls.
+func genAlias(c *GenCtx) {
+	r := c.Rng
+	docs := []string{
+		`{"x":[3,1,2],"y":[5,4],"o":{"b":2,"a":1},"s":["b","a","c"],"n":[3,null,1,null,2],"e":[],"m":[[2,1],[4,3]]}`,
+		`{"x":[2,1],"y":[],"o":{"z":[3,1,2]},"s":["é","a"],"n":[null,2,1],"e":[],"m":[[1],[3,2]]}`,
+		`{"x":[9,8,7,6,5,4,3,2,1,0,11,10,13,12],"y":[1],"o":{},"s":["c","b","a"],"n":[1,null],"e":[],"m":[]}`}
+	operands := []string{"x", "x[*]", "x[]", "x[:]", "x[0:]", "@.x", "$.x", "(x)", "x || y", "e || x", "x && x", "[x][0]", "{a: x}.a", "not_null(x)", "not_null(e[0], x)",
+		"let $v = x in $v", "`[3,1,2]`", "`[3,1,2]`[*]", "s", "s[*]", "n", "n[*]", "n[]", "m[0]", "m[]", "m[*][0]", "o.z", "values(o)", "to_array(x)", "to_array(x)[*]",
+		"x[?@ > `0`]", "map(&@, x)", "merge(o, o)", "o", "sort(x)", "reverse(x)"}
+	fns := []string{"sort(%s)", "reverse(%s)", "sort_by(%s, &@)", "max(%s)", "min(%s)", "%s[*]", "%s[]", "%s[::-1]", "%s[1:]", "map(&@, %s)", "not_null(%s)", "to_array(%s)",
+		"sort(%s)[0]", "merge(%s, {q: `1`})", "values(%s)", "keys(%s)", "items(%s)", "from_items(items(%s))", "group_by(%s, &to_string(@))", "zip(%s, %s)", "join(',', %s)",
+		"sum(%s)", "avg(%s)", "length(%s)", "contains(%s, `1`)", "%s | sort(@)", "%s | reverse(@)", "sort(%s[*])", "reverse(%s[*])", "sort(%s[])", "sort(sort(%s))"}
+	n := c.n(2500, 40000)
+	for k := 0; k < n; k++ {
+		op := r.Pick(operands)
+		e := strings.ReplaceAll(r.Pick(fns), "%s", op)
+		switch r.Intn(4) {
+		case 0:
+			e = "[" + e + ", " + op + "]"
+		case 1:
+			e = "[" + op + ", " + e + ", " + op + "]"
+		case 2:
+			e = "[" + e + ", " + e + ", @]"
+		}
+		c.add("alias", e, r.Pick(docs))
+	}
 }
 
 // ---------------------------------------------------------------------------------------------
@@ -761,7 +815,7 @@ func genIdentities(c *GenCtx) []identPair {
 		x := base()
 		e1, e2 := simple(), sel()
 		var p identPair
-		which := r.Intn(11)
+		which := r.Intn(14)
 		if which >= 2 && which <= 4 {
 			e1 = sel() // moved behind a pipe: must map null to null
 		}
@@ -795,8 +849,19 @@ func genIdentities(c *GenCtx) []identPair {
 		case 9: // {k: e}.k = e (non-null current)
 			a := base()
 			p = identPair{"{k: " + a + "}.k", a, `{"foo":` + c.doc(2) + `,"bar":` + c.doc(2) + `,"a":1,"b":2,"c":{"a":3},"k":0}`}
-		default: // object projection
+		case 10: // object projection
 			p = identPair{x + ".*" + e1 + e2, x + ".*" + e1 + " | [*]" + e2, doc}
+		case 11: // filter projection followed by two selectors (the second one may itself be a filter or a projection)
+			e1 = r.Pick([]string{".a", ".b", "[0]", ".foo", ".k", ".c.a"})
+			p = identPair{x + "[?a]" + e1 + e2, x + "[?a]" + e1 + " | [*]" + e2, doc}
+		case 12: // flatten projection followed by two selectors
+			e1 = r.Pick([]string{".a", ".b", "[0]", ".foo", ".k", ".c.a"})
+			p = identPair{x + "[]" + e1 + e2, x + "[]" + e1 + " | [*]" + e2, doc}
+		default: // a filter inside the right-hand side of each kind of projection
+			open := r.Pick([]string{"[*]", "[?a]", "[]", ".*", "[?k]"})
+			e1 = r.Pick([]string{".a", ".b", ".foo", ".bar", ".c"})
+			f := r.Pick([]string{"[?a]", "[?k]", "[?@]", "[?a == `1`]", "[?b]"})
+			p = identPair{x + open + e1 + f, x + open + " | [*]" + e1 + f, doc}
 		}
 		pairs = append(pairs, p)
 		c.add("ident-a", p.a, p.doc)
